@@ -118,6 +118,23 @@ def run(report, findings):
             except Exception as ex:
                 err = f"raised {type(ex).__name__}: {ex}"
             add(f, err)
+        # an integer-typed training offset (counts, exposure) and fractional values in the new frame: nothing of the training
+        # representation (dtype) may be carried over to prediction
+        newi = new.copy()
+        newi["n0"] = np.array([2.5, 0.75, 6.2, 1.5])
+        for f, want_tr, want_new in (("y ~ x + offset(n0)", d["n0"].values, newi["n0"].values),
+                                     ("y ~ x + offset(n0 * 2)", d["n0"].values * 2, newi["n0"].values * 2),
+                                     ("y ~ x + offset(3)", np.full(len(d), 3.0), np.full(len(newi), 3.0))):
+            try:
+                dm = design_matrices(f, d)
+                got = col(dm)[:, 0]
+                err = None if np.allclose(got, want_tr) else "offset column differs from its argument"
+                got2 = np.asarray(dm.common.evaluate_new_data(newi).design_matrix, dtype=float)[:, -1]
+                if err is None and not np.allclose(got2, want_new):
+                    err = "offset is not recomputed from the new frame at prediction"
+            except Exception as ex:
+                err = f"raised {type(ex).__name__}: {ex}"
+            add(f + "  [integer training column, fractional new frame]", err)
         for f in ("offset(z) ~ x", "y ~ offset(f)"):
             try:
                 design_matrices(f, d)
